@@ -76,3 +76,7 @@ def _json_dumps(ex, args, kwargs, lineno):
     f = z3.Function(f"json.dumps[{t.sort().name()},indent={ind}]", t.sort(), z3.StringSort())
     ex.ufs_used.add("json.dumps (uninterpreted function of the document)")
     return VStr(f(t))
+
+
+for _m in ("remove", "add", "configure", "bind", "opt"):
+    external(f"loguru.logger.{_m}")(_no_effect)  # handler management: no observable effect on the renderings
